@@ -234,7 +234,26 @@ def _w_repaired(m):
     ]
 
 
+def _w_stage_overrun(m):
+    import exo.stdlib.scheduling as S
+    p = m.foo
+    lp = p.find_loop("i")
+    blk = lp.body()
+    return [
+        ("stage_mem", "B[('body', 0)]:body:(0, 1) win=x[i-1:i+1]", lambda: S.stage_mem(p, blk, "x[i-1:i+1]", "stg")),
+        ("stage_mem", "B[('body', 0)]:body:(0, 1) win=x[i-1:i+2]", lambda: S.stage_mem(p, blk, "x[i-1:i+2]", "stg")),
+        ("stage_mem", "B[('body', 0)]:body:(0, 1) win=x[i:i+2]", lambda: S.stage_mem(p, blk, "x[i:i+2]", "stg")),
+    ]
+
+
 WITNESSES = [
+    ("stage_mem_window_overruns_source", """
+@proc
+def foo(n: size, x: R[n], y: R[n]):
+    for i in seq(0, n):
+        if i >= 1:
+            x[i] += x[i - 1] * y[i]
+""", _w_stage_overrun),
     ("stage_mem_write_only", """
 @proc
 def foo(n: size, x: R[n], y: R[n]):
